@@ -220,7 +220,8 @@ def classify(tr, v):
     line, act, why = v[1], v[2], v[3]
     kind = why[0] if why else "?"
     if act == "Activate" and kind == "proj":
-        fields = sorted(d[0] for d in why[1])
+        diff = why[1][1] if isinstance(why[1], tuple) and why[1][0] == "set" else why[1]
+        fields = sorted(str(d[0]) for d in diff)
         return "proj:" + ",".join(fields)
     if act == "Activate" and kind == "ok":
         e = tr["ev"][0]
